@@ -18,7 +18,7 @@ from analysis import units
 from rules import dir_shared as ds, storage_shared as ss, c18
 
 EXPLANATION = __doc__
-FLOOR = 35
+FLOOR = 39
 
 
 def run(ctx):
